@@ -2,12 +2,12 @@
 # confirm_seeded.sh <PID> <adversary worktree> <variant n>
 # Confirms an adversary's variant ourselves (applies, builds, full ctest, demo fails; reverted: demo passes),
 # runs our quick check against it (VERIF_REPO=<worktree>), and stores it under /verif/seeded/<PID>-<n>/.
-PID=$1; WT=$2; N=$3
+PID=$1; WT=$2; N=$3; SN=${4:-$N}   # SN: index under which the change is stored (second wave: 4..6)
 D=$WT/out/$N
 cd $WT || exit 2
 git checkout -q -- . 2>/dev/null
-git apply $D/patch.diff || { echo "RESULT $PID-$N: patch does not apply"; exit 2; }
-cmake --build build -j8 >/dev/null 2>&1 || { echo "RESULT $PID-$N: does not build"; git checkout -q -- .; exit 2; }
+git apply $D/patch.diff || { echo "RESULT $PID-$SN: patch does not apply"; exit 2; }
+cmake --build build -j8 >/dev/null 2>&1 || { echo "RESULT $PID-$SN: does not build"; git checkout -q -- .; exit 2; }
 ct=$(ctest --test-dir build -j8 --timeout 900 2>&1 | grep "tests passed\|tests failed" | tail -1)
 nonmem=$(ctest --test-dir build -j8 --timeout 900 --rerun-failed 2>&1 | grep "Failed\|Timeout" | grep -v memory_test | wc -l)
 bash $D/run_demo.sh $WT > /tmp/demo-$PID-$N-with.log 2>&1; rcw=$?
@@ -16,10 +16,10 @@ keys=$(echo "$out" | grep '^VIOLATION' | grep -o 'key=[^ ]*' | sort -u | tr '\n'
 git apply -R $D/patch.diff
 cmake --build build -j8 >/dev/null 2>&1
 bash $D/run_demo.sh $WT > /tmp/demo-$PID-$N-without.log 2>&1; rcwo=$?
-S=/verif/seeded/$PID-$N
+S=/verif/seeded/$PID-$SN
 mkdir -p $S
 cp $D/patch.diff $S/; cp -r $D/demo* $D/run_demo.sh $D/README.md $S/ 2>/dev/null
-python3 - "$S" "$PID" "$N" "$ct" "$nonmem" "$rcw" "$rcwo" "$rcc" "$keys" <<'PY'
+python3 - "$S" "$PID" "$SN" "$ct" "$nonmem" "$rcw" "$rcwo" "$rcc" "$keys" <<'PY'
 import json,sys
 S,pid,n,ct,nonmem,rcw,rcwo,rcc,keys=sys.argv[1:]
 readme=open(S+'/README.md').read() if __import__('os').path.exists(S+'/README.md') else ''
@@ -30,4 +30,4 @@ json.dump({"property":pid,"variant":int(n),"source":"independent sub-agent given
   "our_check":{"cmd":"VERIF_REPO=<worktree with patch> bin/vcheck %s --tier quick"%pid,"exit":int(rcc),"keys":keys.split()}},
   open(S+'/meta.json','w'),indent=1)
 PY
-echo "RESULT $PID-$N: ctest[$ct] nonmem_fail=$nonmem demo_with=$rcw demo_without=$rcwo check_rc=$rcc $keys"
+echo "RESULT $PID-$SN: ctest[$ct] nonmem_fail=$nonmem demo_with=$rcw demo_without=$rcwo check_rc=$rcc $keys"
